@@ -2,7 +2,7 @@
 import os
 import subprocess
 
-from ..e1 import VERIF, ENV, sh
+from ..e1 import VERIF, ENV, sh, REPLAY_TARGET, REPLAY_C16
 
 _built = {}
 
@@ -12,8 +12,8 @@ def _binary():
         return _built["b"]
     env = dict(ENV)
     env["RUSTFLAGS"] = "--cfg edp_rs_verif"
-    p = sh(["cargo", "build", "--offline", "--target-dir", os.path.join(VERIF, ".target-replay")], cwd=os.path.join(VERIF, "replay_c16"), env=env)
-    b = os.path.join(VERIF, ".target-replay", "debug", "replay_c16")
+    p = sh(["cargo", "build", "--offline", "--target-dir", REPLAY_TARGET], cwd=REPLAY_C16, env=env)
+    b = os.path.join(REPLAY_TARGET, "debug", "replay_c16")
     _built["b"] = b if p.returncode == 0 and os.path.exists(b) else None
     return _built["b"]
 
@@ -45,8 +45,6 @@ def replay(kind, T, K, order, start, tree, expect=None):
     b = _binary()
     if b is None:
         return False, {"dev": (-1, "replay build failed")}
-    if kind != "allocate":
-        return False, {"dev": (5, "make_reference replay not supported")}
     cmd = [b, kind, str(T), str(K), str(start.get("next_id", 1)), str(start.get("next_serial", 0)), str(start.get("creation", 0)),
            ",".join(str(x) for x in order)]
     try:
